@@ -467,8 +467,30 @@ def w_geometry(ctx, rng, i):
     R = gen.rotation_matrix(rng, d)
     size = float(np.abs(m.points).max())
     tvec = rng.uniform(-2, 2, d) * size
+    far = bool(rng.random() < 0.25)
+    if far:
+        tvec = tvec * 10.0 ** rng.uniform(3, 5.5)          # a scan placed in map coordinates: far away compared with its size
     s = float(10.0 ** rng.uniform(-3, 3)) if rng.random() < 0.3 else float(rng.uniform(0.2, 5.0))
-    rigid = Rotation(R).compose_before(Translation(tvec))
+    rot = Rotation(R)
+    if d == 3 and rng.random() < 0.4:
+        # the rotation given as a unit quaternion (what pose estimators hand over)
+        q = rng.normal(size=4)
+        q /= np.linalg.norm(q)
+        rot = Rotation.init_3d_from_quaternion(q) if rng.random() < 0.5 else Rotation.init_identity(3).from_vector(q)
+        R = np.array(rot.h_matrix, dtype=float)[:3, :3]
+        ctx.tap("rotation_from_a_unit_quaternion", "calls"); ctx.tap("rotation_from_a_unit_quaternion", "checked")
+        if _amax(R @ R.T - np.eye(3)) > 1e-9 or abs(np.linalg.det(R) - 1.0) > 1e-9:
+            ctx.fail("geometry_changes_under_rigid_motion", cls="Rotation", mech="3D:rotation_built_from_a_unit_quaternion_is_not_a_rotation", err=_amax(R @ R.T - np.eye(3)))
+    rigid = rot.compose_before(Translation(tvec))
+    if rng.random() < 0.35:
+        # the motion has a past of non-mutating uses (a scaled version was derived from it, its inverse taken ...)
+        from vf import tx as _tx
+        with taps.quiet():
+            for _ in range(2):
+                _tx.bystander_history(rng, rigid, d)
+            UniformScale(float(rng.uniform(1.5, 4.0)), d).compose_before(rigid)
+            rigid.compose_after(UniformScale(float(rng.uniform(1.5, 4.0)), d))
+        ctx.bump("rigid_motions_with_a_bystander_history")
     if rng.random() < 0.5:   # history: queries answered before the mesh is transformed
         m.tri_areas(); m.edge_lengths(); m.boundary_tri_index()
         if d == 3:
@@ -502,6 +524,9 @@ def w_geometry(ctx, rng, i):
     ctx.err("area_rigid_rel" + (":f32" if f32 else ""), ea); ctx.err("length_rigid_rel" + (":f32" if f32 else ""), el)
     if f32:
         # single precision: only the coarse relations are judged (the taps judge each query against its reference)
+        if far:
+            # (measured against the size of the mesh itself: moving it far away must not cost it its shape)
+            ea, el = np.abs(a1 - a0).max() / size ** 2, np.abs(l1 - l0).max() / size
         if not (ea <= 1e-4) or not (el <= 1e-4) or (a0 < 0).any() or (l0 < 0).any():
             ctx.fail("geometry_changes_under_rigid_motion", cls=cls, mech="float32:%dD" % d, err=float(max(ea, el)))
         ctx.count_case((cls, d, kind, "float32", "geometry"), nontrivial=True)
